@@ -20,7 +20,7 @@ def load_units():
 def unit_props(u):
     ps = set()
     for fs in u.fns:
-        for c in fs.requires + fs.ensures + [c for l in fs.loops for c in l.invariants + l.ensures + l.except_break]:
+        for c in fs.requires + fs.ensures + [c for l in fs.loops for c in l.invariants + l.ensures + l.except_break] + getattr(fs, 'tagged_proofs', []):
             ps.update(c.props())
     ps.update(getattr(u, 'serves', []))
     return ps
@@ -146,15 +146,17 @@ def decide(pid, runs, known):
                 elif ur.error: ob['status'] = 'undecided'; ob['why'] = ur.error
                 else: ob['status'] = 'discharged'
                 obligations.append(ob)
-        # support failures make the property obligations of that function undecided
-        for ob in obligations:
-            if ob['unit'] != u.name or ob['status'] != 'discharged': continue
-            sf = fn_support_fail.get(_short(ob['function']), []) or fn_support_fail.get(ob['function'], [])
-            sf = [d for d in sf if not (pid == 'C15' and implicit_tag(d))]
-            if sf:
-                ob['status'] = 'undecided'
-                ob['why'] = 'support obligation failed in the same function: ' + sf[0].message + ' @' + str(sf[0].primary_line)
-                ob['diagnostic'] = sf[0].rendered[:1500]
+        # Verification is modular: a caller is proved against its callees' contracts, so ANY failed obligation in the unit
+        # that is not itself an obligation of this property leaves this property's obligations unestablished (undecided).
+        other = [d for d in ur.ver if not (d.clause is not None and d.clause.is_property and pid in d.clause.props()) and not (pid == 'C15' and serves_c15 and d.clause is None and implicit_tag(d))]
+        if other:
+            d0 = other[0]
+            desc = (f'clause [{d0.clause.tag or "support"}] of {d0.clause.fn}' if d0.clause is not None else f'{d0.message} in {d0.fn} @{d0.primary_line}')
+            for ob in obligations:
+                if ob['unit'] == u.name and ob['status'] == 'discharged':
+                    ob['status'] = 'undecided'
+                    ob['why'] = f'another obligation of unit {u.name} failed, so contracts this proof relies on are not established: {desc}'
+                    ob['diagnostic'] = d0.rendered[:1500]
         if ur.twin_missing:
             for ob in obligations:
                 if ob['unit'] == u.name and any(ob['function'] in t for t in ur.twin_missing):
@@ -264,7 +266,7 @@ def check(pid, tier, seed):
     t0 = time.time()
     units = [u for u in load_units() if pid in unit_props(u)]
     from . import kani as K
-    kunits = K.units_for(pid)
+    kunits = K.units_for(pid, tier)
     if not units and not kunits:
         print(f'no checks serve {pid}'); return 2
     known = load_known()
